@@ -159,8 +159,26 @@ def ete_clades(t):
     return frozenset(frozenset(l.name for l in n.get_leaves()) for n in t.traverse())
 
 
+def name_internals(tree, mode):
+    """ancestors given fresh names ("fresh"), all the same label ("same") or the name of one of their leaves ("leaf")"""
+    for i, n in enumerate(tree.traverse("preorder")):
+        if not n.is_leaf():
+            n.name = {"fresh": f"anc{i}", "same": "90", "leaf": n.get_leaves()[0].name}[mode]
+    return tree
+
+
 def check_roundtrip(t):
+    for mode in (None, "fresh", "same", "leaf"):
+        bad = check_roundtrip_mode(t, mode)
+        if bad:
+            return bad if mode is None else f"ancestors named ({mode}): {bad}"
+    return None
+
+
+def check_roundtrip_mode(t, mode):
     tree = ete(t)
+    if mode:
+        name_internals(tree, mode)
     want = G.tree_clades(t)
     leaves, triples = tree_to_triples(tree)
     if sorted(leaves) != sorted(G.tree_leaves(t)):
